@@ -544,10 +544,10 @@ def t1_cases(draw):
         perf["t1"] = {"caps": caps}
         if draw(st.booleans()):
             perf["t1"]["dedupe_window"] = draw(st.sampled_from([1, 4]))
-    ncalls = draw(st.sampled_from([1, 1, 2, 3])) if cache != "off" else draw(st.sampled_from([1, 1, 1, 2]))
+    ncalls = draw(st.sampled_from([1, 2, 2, 3, 3])) if cache != "off" else draw(st.sampled_from([1, 1, 1, 2]))
     calls = []
     for j in range(ncalls):
-        text = draw(world.texts_for(graphs)) if (j == 0 or draw(st.booleans())) else calls[0]["text"]
+        text = draw(world.texts_for(graphs)) if (j == 0 or draw(st.sampled_from([True, False, False]))) else calls[0]["text"]
         calls.append({"text": text, "prio": list(draw(st.permutations(list(range(ng)))))})
     return {"graphs": graphs, "order": gids, "t1": t1, "cache": cache, "cache_n": cache_n, "perf": perf,
             "workers": draw(st.sampled_from([2, 2, 3, 4, 5, 6, 7, 8])), "off": draw(st.sampled_from(OFF_MODES)), "calls": calls,
